@@ -23,7 +23,7 @@ func TestC11(t *testing.T) {
 		ID: "C11",
 		Cfg: core.SimConfig{
 			Prop:           "C11",
-			Owned:          core.Own(core.CatEvents, core.CatPanicListener),
+			Owned:          core.Own(core.CatEvents, core.CatPanicListener, core.CatEventValues),
 			Verify:         core.FullVerify,
 			Listener:       "full",
 			CheckEvents:    true,
